@@ -126,7 +126,20 @@ impl Property for C02 {
             // text) produced by storage corruption, so that the diagnostic path itself
             // runs under every world and sink fault
             let w2p = crate::w2::build(&p.aux);
-            if let Some(it) = crate::props::c17::flip_item(rng, &w2p) {
+            let it = if rng.chance(1, 3) && !w2p.spaces.is_empty() {
+                // a stray bracket / comma / colon / dot between two tokens: mostly syntax errors
+                // that quote the following token -- biased towards long (multi-byte) tokens
+                let sp = if rng.chance(1, 3) {
+                    w2p.spaces.iter().max_by_key(|s| (s.next_len, s.off)).unwrap()
+                } else {
+                    &w2p.spaces[rng.usize_below(w2p.spaces.len())]
+                };
+                let punct = b")(][}{,:.";
+                Some(Item::Flip { off: sp.off, bytes: vec![punct[rng.usize_below(punct.len())]] })
+            } else {
+                crate::props::c17::flip_item(rng, &w2p)
+            };
+            if let Some(it) = it {
                 plan.items.retain(|i| !matches!(i, Item::Flip { .. } | Item::Eof { .. }));
                 plan.items.push(it);
             }
